@@ -831,6 +831,12 @@ def project_run(txns, original, dmg, damaged, events, how, outtx):
             if k < len(outtx) and cur is not None:
                 same = content(outtx[k]) == content(txns[cur])
                 whole = len(outtx[k]['recs']) == len(txns[cur]['recs'])
+                if not whole and lo < hi and txns[cur]['s'] <= lo and hi <= txns[cur]['h']:
+                    # the damage lies in this transaction's HEADER (e.g. one byte of the extension length): the tool
+                    # reads the records from another offset, which happens to end at the transaction's end.  Nothing in
+                    # the format can tell (no checksum): judged like altered bytes of a transaction that overlaps the
+                    # damage, not as a record dropped by the tool
+                    whole = True
             srcs.append((cur, same, whole))
             k += 1
             ev.append({'k': 'copy', 'p': 0, 'r': '-', 'q': 0, 't': 0, 'same': same, 'whole': whole})
